@@ -38,7 +38,8 @@ def render_stage(st):
     for a in st.get("args", []):
         parts.append(a)
     for r in st.get("redirs", []):
-        parts.append(render_redir(r))
+        # ("glue_arg": an argument written without a blank in front of the operator, e.g. `ls -1>out`)
+        parts.append(r.get("glue_arg", "") + render_redir(r))
     return " ".join(parts)
 
 
